@@ -27,3 +27,6 @@ package gzip
 //@   flags libframe
 //@   requires g != nil
 //@   ensures[empty-passes-through] len(src) == 0 ==> result.1 == nil && len(result.0) == 0
+// the restored payload is read by the next filter of the pipe and by the body
+// decoder: it must not sit in a byte buffer this call has handed back to the pool
+//@   ensures[unpacked-bytes-not-in-a-released-buffer] result.1 == nil && len(result.0) > 0 && len(src) > 0 ==> !ghost.releasedBufs[base(result.0)] || old(ghost.releasedBufs[base(result.0)])
